@@ -8,6 +8,7 @@ Quantifiers: every regular expression of the modelled RE2 subset, every text, ev
 -/
 import Argot.Proofs.CodeId
 import Argot.Proofs.Entry
+import Argot.Gen.T10CodeId
 
 namespace Argot.C04
 open Argot.Regex Argot.CodeId Argot.Entry
@@ -289,5 +290,59 @@ example : eltTypePackage (.pointer (.basic "int")) id = none := by decide
 /-- a field store is selected only by kind "store", a receive only by "channel receive" (identifier kinds) -/
 example : (nodeCids { nk := .fieldStore, parent := "p.f", ty := .pointer (.named "lib" "T"), field := "G" }).map (·.kind) = ["store"] := by decide
 example : (nodeCids { nk := .chanRecv, parent := "p.f", ty := .chan (.named "lib" "T") }).map (·.kind) = ["channel receive"] := by decide
+
+/-! ## 4. Regenerated tables (T10): the model's conjunction and case analysis are the ones in the source now -/
+
+def regexName : Fld → String
+  | .context => "contextRegex" | .package => "packageRegex" | .interface => "interfaceRegex"
+  | .method => "methodRegex" | .receiver => "receiverRegex" | .field => "fieldRegex" | .type => "typeRegex"
+  | .valueMatch => "valueMatchRegex" | .label => "labelRegex" | .kind => "kindRegex"
+
+/-- the conjuncts of `equalOnNonEmptyFields` in the current source are exactly `CodeId.conjTable` (in order, including
+the package regex run on `Interface`), followed by the `Kind` equality -/
+theorem gen_matchConj_current :
+    Gen.T10.unparsed = false ∧ Gen.T10.matchKindEq = true ∧
+    Gen.T10.matchConj = conjTable.map fun t => (regexName t.1, t.2.1.name, t.2.2.name) := by decide
+
+/-- every regex field is compiled from its namesake field of the specification (`CodeId.compile`) -/
+theorem gen_regexSource_current :
+    Gen.T10.regexSource = [("contextRegex", "Context"), ("fieldRegex", "Field"), ("interfaceRegex", "Interface"),
+      ("methodRegex", "Method"), ("packageRegex", "Package"), ("receiverRegex", "Receiver"), ("typeRegex", "Type"),
+      ("valueMatchRegex", "ValueMatch")] := by decide
+
+/-- `IsEntrypointNode`: the instruction kinds with a case and the identifier fields each case fills
+(`Entry.entryCids` invoke branch / `Entry.nodeCids`), `isFuncEntrypoint`, `isAliasEntrypoint` (`entryCids` static and
+alias identifiers) -/
+theorem gen_entryCases_current :
+    Gen.T10.entryCases =
+      [ (["*ssa.Call"], [["Context", "Method", "Package", "Receiver"]]),
+        (["*ssa.Field"], [["Context", "Field", "Package", "Type"]]),
+        (["*ssa.FieldAddr"], [["Context", "Field", "Package", "Type"]]),
+        (["*ssa.Alloc"], [["Context", "Package", "Type"]]),
+        (["*ssa.Store"], [["Context", "Field", "Kind", "Package", "Type"]]),
+        (["*ssa.UnOp"], [["Context", "Kind", "Package", "Type"]]),
+        (["default"], []) ] ∧
+    Gen.T10.funcEntryLits = [["Context", "Method", "Package"]] ∧
+    Gen.T10.aliasEntryLits = [["Method", "Package"]] := by decide
+
+/-- the regenerated table shows it: no case for `go` / `defer` calls among the entry points, one among the sinks -/
+theorem gen_entry_no_go_defer :
+    (∀ c ∈ Gen.T10.entryCases, "*ssa.Go" ∉ c.1 ∧ "*ssa.Defer" ∉ c.1) ∧
+    (∃ c ∈ Gen.T10.sinkCases, "*ssa.Call" ∈ c.1 ∧ "*ssa.Go" ∈ c.1 ∧ "*ssa.Defer" ∈ c.1) := by decide
+
+/-- `IsMatchingCodeIDWithCallee` (fields of `Entry.sinkCids` / `Entry.fnCid`), `isMatchingCodeID` and
+`scanEntryPoints` (node kinds with a rule) -/
+theorem gen_sinkCases_current :
+    Gen.T10.sinkCases =
+      [ (["*ssa.Call", "*ssa.Go", "*ssa.Defer"],
+          [["Context", "Method", "Package", "Receiver", "ValueMatch"], ["Context", "Method", "Package", "Receiver", "ValueMatch"],
+           ["Context", "Method", "Package", "Receiver", "ValueMatch"], ["Context", "Method", "Package", "Receiver", "ValueMatch"]]),
+        (["*ssa.Store"], []),
+        (["*ssa.Function"], [["Method", "Package", "ValueMatch"]]),
+        (["default"], []) ] ∧
+    Gen.T10.graphCases.map (·.1) =
+      [ ["*dataflow.ParamNode", "*dataflow.FreeVarNode"], ["*dataflow.CallNodeArg"], ["*dataflow.CallNode"],
+        ["*dataflow.SyntheticNode"], ["*dataflow.ReturnValNode", "*dataflow.ClosureNode", "*dataflow.BoundVarNode"], ["default"] ] ∧
+    Gen.T10.scanCases.map (·.1) = [["*SyntheticNode"], ["*CallNodeArg"], ["*CallNode"]] := by decide
 
 end Argot.C04
